@@ -65,7 +65,9 @@ def make_module(rng, nf, sized=False, helpers=True):
     # functions that are not exported and whose debug names (-g) are alike up to punctuation, equal, or words of C
     hnames = ["memcpy.1", "memcpy_1", "memcpy 1", "a-b", "a_b", "dup", "dup", "int", "main", "operator new(unsigned long)", "q\"uote\\",
               # names that end or begin a C comment, contain a line break, a trigraph for a backslash, a format directive
-              "glob(\"src/*/*.c\")", "/* open", "x//y", "line\nbreak", "tri??/", "%s%n"] if helpers else []        # (not f<N>: that is the known collision with internal names under -m)
+              "glob(\"src/*/*.c\")", "/* open", "x//y", "line\nbreak", "tri??/", "%s%n",
+              # long names that differ only at their very end (instances of one generic function, told apart by a trailing hash)
+              "_ZN4core3ptr" + "L" * 290 + "17h0a1b2c3d4e5f6071E", "_ZN4core3ptr" + "L" * 290 + "17h0a1b2c3d4e5f6072E"] if helpers else []        # (not f<N>: that is the known collision with internal names under -m)
     for hk in range(len(hnames)):
         funcs.append({"type": 0, "locals": [], "body": [["local.get", 0], ["i32.const", b32(1000 * (hk + 1))], ["i32.add"], ["end"]]})
     hbody = [["i32.const", b32(0)]]
